@@ -10,6 +10,9 @@ IDS="${*:-C01 C02 C03 C04 C05 C06 C07 C08 C09 C10 C11 C12 C13 C14 C15 C16 C17 C1
 OUT=/tmp/vcov; mkdir -p $OUT/prof $OUT/evidence
 TOOLS=$(dirname "$(rustup which --toolchain nightly rustc)")/../lib/rustlib/x86_64-unknown-linux-gnu/bin
 cd /verif/harness || exit 2
+# (instrumented build scripts run during the build with the package directory as cwd: give them a profile path
+# under $OUT too, or they drop default_*.profraw files into /repo)
+export LLVM_PROFILE_FILE="$OUT/prof/build-%p-%m.profraw"
 export CARGO_NET_OFFLINE=true CARGO_TARGET_DIR=$OUT/target RUSTFLAGS="-C instrument-coverage"
 bins=(); for id in $IDS; do bins+=(--bin "$(echo $id | tr A-Z a-z)"); done
 cargo +nightly build --quiet --profile verif "${bins[@]}" 2>&1 | grep -E "^error" -A8
